@@ -55,11 +55,22 @@ type Avoid struct {
 	BadUTF8     bool // F3
 }
 
+// header-like lines that the unchanged library provably ignores: the name is not
+// the name of any test and does not start with Test, Benchmark or Fuzz
+var harmlessNames = []string{"Other", "other thing", "Spec/x", "test"}
+
+func headerName(r *scen.Rand, av Avoid) string {
+	if av.HeaderLike {
+		return harmlessNames[r.Intn(len(harmlessNames))]
+	}
+	return testNames[r.Intn(len(testNames))]
+}
+
 var testNames = []string{"TestA", "TestAB", "TestA1", "Test1", "TestB", "TestSub", "TestC", "TestC10", "TestOther", "Other", "TestA/sub", "TestB/s1"}
 
 func framingString(r *scen.Rand, av Avoid) string {
 	for {
-		k := r.Intn(16)
+		k := r.Intn(19)
 		switch k {
 		case 0:
 			return "---"
@@ -69,10 +80,7 @@ func framingString(r *scen.Rand, av Avoid) string {
 			}
 			return "/-/-/-/"
 		case 2:
-			if av.HeaderLike {
-				continue
-			}
-			return fmt.Sprintf("[%s - %d]", testNames[r.Intn(len(testNames))], 1+r.Intn(12))
+			return fmt.Sprintf("[%s - %d]", headerName(r, av), 1+r.Intn(12))
 		case 3:
 			return plainLine(r) + "\n---\n" + plainLine(r)
 		case 4:
@@ -81,10 +89,15 @@ func framingString(r *scen.Rand, av Avoid) string {
 			}
 			return plainLine(r) + "\n/-/-/-/\n" + plainLine(r)
 		case 5:
-			if av.HeaderLike {
-				continue
-			}
-			return plainLine(r) + "\n" + fmt.Sprintf("[%s - %d]", testNames[r.Intn(len(testNames))], 1+r.Intn(12)) + "\n" + plainLine(r) + "\n---\n" + plainLine(r)
+			return plainLine(r) + "\n" + fmt.Sprintf("[%s - %d]", headerName(r, av), 1+r.Intn(12)) + "\n" + plainLine(r) + "\n---\n" + plainLine(r)
+		case 16:
+			// a blank line right before a header-like line, as inside a stored snapshot file
+			return plainLine(r) + "\n\n" + fmt.Sprintf("[%s - %d]", headerName(r, av), 1+r.Intn(3)) + "\n" + plainLine(r) + "\n---\n"
+		case 17:
+			// terminal output: colour sequences are bytes like any other
+			return "\x1b[31m" + plainLine(r) + "\x1b[0m"
+		case 18:
+			return plainLine(r) + "\n\x1b[1;32mok\x1b[0m " + plainLine(r)
 		case 6:
 			return "---\n---"
 		case 7:
@@ -256,6 +269,16 @@ func mutateString(r *scen.Rand, s string, av Avoid, multi bool) string {
 			}
 		}
 		kind := r.Intn(12)
+		if strings.Contains(s, "\x1b[") && r.Bool(0.5) {
+			// only the colour changes
+			if strings.Contains(s, "\x1b[31m") {
+				return strings.Replace(s, "\x1b[31m", "\x1b[32m", 1)
+			}
+			if strings.Contains(s, "\x1b[1;32m") {
+				return strings.Replace(s, "\x1b[1;32m", "\x1b[1;31m", 1)
+			}
+			return strings.Replace(s, "\x1b[32m", "\x1b[31m", 1)
+		}
 		if len(s) > 8000 {
 			// very long lines: small edits only (a full rewrite makes the library's
 			// character diff burn seconds of CPU per call)
@@ -327,7 +350,9 @@ func mutateString(r *scen.Rand, s string, av Avoid, multi bool) string {
 func headerLike(s string) bool {
 	for _, l := range strings.Split(s, "\n") {
 		if strings.HasPrefix(l, "[") && strings.HasSuffix(l, "]") && strings.Contains(l, " - ") {
-			return true
+			if strings.HasPrefix(l, "[Test") || strings.HasPrefix(l, "[Benchmark") || strings.HasPrefix(l, "[Fuzz") {
+				return true
+			}
 		}
 	}
 	return false
